@@ -28,7 +28,7 @@ def build_envs(group):
     elif kind == "supervised":
         X = [tuple(r) for r in kw["X"]]
         if kw.get("via") == "source":
-            envs = cb.Environments.from_supervised(_SupSource(X, kw["Y"]), label_col=len(X[0]), label_type=kw.get("label_type", "c"))
+            envs = cb.Environments.from_supervised(_SupSource(X, kw["Y"], kw.get("interrupt_at")), label_col=len(X[0]), label_type=kw.get("label_type", "c"))
         else:
             envs = cb.Environments.from_supervised(X, list(kw["Y"]), label_type=kw.get("label_type", "c"))
     else:
@@ -54,11 +54,16 @@ def build_envs(group):
 
 
 class _SupSource:
-    def __init__(self, X, Y):
+    def __init__(self, X, Y, interrupt_at=None):
         self.X, self.Y = X, Y
+        # fault: the first read that reaches row `interrupt_at` is hit by a Ctrl-C (only while K.INTERRUPTS_ENABLED)
+        self.interrupt_at, self.interrupted = interrupt_at, False
 
     def read(self):
-        for x, y in zip(self.X, self.Y):
+        for i, (x, y) in enumerate(zip(self.X, self.Y)):
+            if self.interrupt_at is not None and i == self.interrupt_at and not self.interrupted and K.INTERRUPTS_ENABLED:
+                self.interrupted = True
+                raise KeyboardInterrupt()
             yield (*x, y)
 
 
